@@ -249,6 +249,8 @@ def real_bank_oracle(ctx):
             continue
         style = r.choice(["causal", "centered"])
         which = r.choice(["stft", "stft", "si"])
+        if case_no % 12 == 0:
+            which = "stft"      # the second-live-instance cases: at least these two are STFT computers in every run
         flags = dict(include_energy=r.random() < 0.5, use_log=r.random() < 0.5, use_power=r.random() < 0.5,
                      pad_to_nearest_power_of_two=r.random() < 0.5)
         # fixed extra shapes (every run): other spellings of the frame style - whatever computer the constructor
@@ -278,13 +280,19 @@ def real_bank_oracle(ctx):
                 flen = r.choice([None, 8.0, 20.0, 25.0])
                 if flen is not None and flen < shift_ms:
                     flen = shift_ms
-                comp = compute.STFTFrameComputer(b, frame_length_ms=flen, frame_shift_ms=shift_ms, frame_style=style,
-                                                 kaldi_shift=r.random() < 0.3, **flags)
+                kaldi_ = r.random() < 0.3
+
+                def mk(b=b, flen=flen, shift_ms=shift_ms, style=style, kaldi_=kaldi_, flags=flags):
+                    return compute.STFTFrameComputer(b, frame_length_ms=flen, frame_shift_ms=shift_ms, frame_style=style,
+                                                     kaldi_shift=kaldi_, **flags)
+                comp = mk()
                 if comp.frame_shift > comp.frame_length:
                     ctx.count("out_of_scope")
                     continue
             else:
-                comp = compute.SIFrameComputer(b, frame_shift_ms=shift_ms, frame_style=style, **flags)
+                def mk(b=b, shift_ms=shift_ms, style=style, flags=flags):
+                    return compute.SIFrameComputer(b, frame_shift_ms=shift_ms, frame_style=style, **flags)
+                comp = mk()
                 # property precondition: shift shorter than the longest filter's one-sided support
                 sup = max((rr if style.lower() == "causal" else (rr - ll) // 2) for ll, rr in b.supports)
                 if not comp.frame_shift < sup:
@@ -342,7 +350,15 @@ def real_bank_oracle(ctx):
             reuse = case_no % 3 == 1 and not layout     # a non-contiguous signal is fed as slices of itself (views)
             case["feed"] = "reused_block" if reuse else "slices"
             blk = np.empty(max(chunks + [1]), dtype=fdt)
+            # in a fixed share of the cases a SECOND, separately built computer of the same configuration is alive and is fed
+            # chunks of another signal in between (one computer per channel of a stereo recording)
+            other = mk() if case_no % 6 == 0 else None
+            if other is not None:
+                case["second_live_instance"] = True
+                ctx.count("second_live_instance:" + which)
             for c in chunks:
+                if other is not None:
+                    other.compute_chunk(np.random.RandomState(c).randn(c + 3).astype(fdt))
                 if reuse:
                     blk[:c] = x[off : off + c]
                     parts.append(comp.compute_chunk(blk[:c]))
@@ -350,6 +366,8 @@ def real_bank_oracle(ctx):
                 else:
                     parts.append(comp.compute_chunk(x[off : off + c]))
                 off += c
+            if other is not None:
+                other.finalize()
             parts.append(comp.finalize())
             st = np.concatenate(parts)
             fbf = compute.frame_by_frame_calculation(comp, x, (2 * L + 3) if layout else r.choice([1, 7, 160, 1024]))
